@@ -236,4 +236,4 @@ def run(report, findings):
                 "affine map; bs df x knots x degree 0..5 x intercept x bounds (incl. 0) with shape, non-negativity, partition of unity and "
                 "refusals; poly degree 1..6 orthonormality, span, raw powers; several poly/bs terms in one design",
         "samples": [r[0] for r in res[:3]] + [r[0] for r in res[60:63]]})
-    report.assumptions = ["numeric identities are checked to tolerance (1e-9 .. 1e-6), not exactly: floating point"]
+    report.assumptions = list(dict.fromkeys(list(report.assumptions) + ["numeric identities are checked to tolerance (1e-9 .. 1e-6), not exactly: floating point"]))
